@@ -252,6 +252,71 @@ def python_scenario(args):
     return errs, len(exp_obs) + len(exp_recv)
 
 
+# ---------------------------------------------------------------- upstream's own Python test programs
+# upstream tests that assert the wording of a CPython error message (which differs between Python versions), not wrapper behaviour
+UPSTREAM_PY_VERSION_SPECIFIC = {("classes", "test_class1_create1")}
+UPSTREAM_PY = ["ccomplex", "clibrary", "enum-c", "namespace", "strings", "types", "structlist", "templates", "classes", "tutorial", "pointers-list-cxx", "vectors-list"]
+
+
+def upstream_py_case(args):
+    """Generate one corpus configuration, build its extension module when it needs no numpy, run regression/run/<name>/python/test.py."""
+    workdir, repo, name = args
+    import re
+
+    from .. import corpus
+    from . import c05
+
+    cfgs = [c for c in corpus.configs(repo) if c[0] == name]
+    test = os.path.join(repo, "regression", "run", name, "python", "test.py")
+    if not cfgs or not os.path.exists(test):
+        return name, "skipped", "no such configuration / test program"
+    if "import numpy" in open(test).read():
+        return name, "skipped", "the test program imports numpy"
+    os.makedirs(workdir)
+    out = os.path.join(workdir, "out")
+    r = corpus.generate(repo, cfgs[0], out, [])
+    if r.status != "ok":
+        shutil.rmtree(workdir, ignore_errors=True)
+        return name, "skipped", "generation failed (C05's subject)"
+    info = c05.run_info(repo, name)
+    srcs = sorted(f for f in os.listdir(out) if f.startswith("py") and f.endswith((".c", ".cpp")))
+    if not info or not srcs or any("numpy/" in open(os.path.join(out, f)).read() for f in srcs):
+        shutil.rmtree(workdir, ignore_errors=True)
+        return name, "skipped", "the generated extension needs numpy"
+    objs = []
+    for src in srcs + info["srcs"]:
+        cc = ["g++", "-std=c++11"] if src.endswith(".cpp") else ["gcc", "-std=c99"]
+        o = os.path.basename(src).rsplit(".", 1)[0] + ".o"
+        rc, so, se = build.sh(cc + ["-w", "-fPIC", "-I.", "-I" + PYINC] + ["-I" + i for i in info["incs"]] + ["-c", src, "-o", o], out)
+        if rc != 0:
+            shutil.rmtree(workdir, ignore_errors=True)
+            return name, "skipped", "does not compile (C05's subject)"
+        objs.append(o)
+    mods = re.findall(r"PyInit_(\w+)\(", "".join(open(os.path.join(out, f)).read() for f in srcs))
+    if not mods:
+        shutil.rmtree(workdir, ignore_errors=True)
+        return name, "skipped", "no module init function"
+    rc, so, se = build.sh(["g++", "-shared", "-o", mods[0] + ".so"] + objs, out)
+    if rc != 0:
+        shutil.rmtree(workdir, ignore_errors=True)
+        return name, "skipped", "does not link (C05's subject)"
+    rc, so, se = build.sh([PY, test], out, env=dict(os.environ, PYTHONPATH=out, PYTHONDONTWRITEBYTECODE="1"), timeout=300)
+    text = (se or "") + (so or "")
+    shutil.rmtree(workdir, ignore_errors=True)
+    m = re.search(r"Ran (\d+) tests?", text)
+    ntests = int(m.group(1)) if m else 0
+    fails = []
+    for blk in re.split(r"\n={20,}\n", text)[1:]:
+        blk = re.split(r"\n-{20,}\nRan \d+ test", blk)[0]
+        head = blk.split("\n")[0]
+        if head.startswith(("FAIL:", "ERROR:")):
+            last = [l for l in blk.strip().split("\n") if l.strip() and not l.startswith("-")][-1]
+            fails.append((head.split("(")[0].strip(), last.strip()))
+    if rc != 0 and not fails:
+        fails.append(("exit %d" % rc, text.strip().split("\n")[-1][:200]))
+    return name, "ran", (ntests, fails)
+
+
 def class_funcs():
     """Methods act on the object they are called on: covered through the Cls atoms (two live objects) and
     the class scenario below."""
@@ -327,6 +392,24 @@ def run(ctx):
     calls += sn
     for kind, what, msg in serrs:
         ctx.violation("%s %s" % (kind, what), msg, {"kind": kind, "scenario": True})
+    ures = isolate.pmap(upstream_py_case, [(os.path.join(wd, "up-" + n), ctx.repo, n) for n in UPSTREAM_PY], W)
+    ran, ntests, skipped = [], 0, []
+    for name, st, info in ures:
+        if st == "skipped":
+            skipped.append("%s: %s" % (name, info))
+            continue
+        nt, fails = info
+        ran.append(name)
+        ntests += nt
+        calls += nt
+        for test, last in fails:
+            if (name, test.split()[-1]) in UPSTREAM_PY_VERSION_SPECIFIC:
+                continue
+            key = "upstream python test %s %s" % (name, test)
+            if "PY_SSIZE_T_CLEAN" in last:
+                key = "py: '#' format units without PY_SSIZE_T_CLEAN"
+            ctx.violation(key, "upstream's own Python test program regression/run/%s/python/test.py: %s: %s" % (name, test, last), {"kind": "upstream-test", "config": name})
+    ctx.part("upstream_python_tests", configurations_run=ran, tests=ntests, skipped=skipped)
     ctx.part("scenario", items="class constructor, instance / static methods on two objects by position and keyword, class results, enum, overload and template dispatch by Python type, defaults by position and keyword, keyword permutation, namespace module, five refused calls")
     ctx.count(states=len(sigs) + 1, transitions=calls, validated=calls)
     ctx.nontrivial_n(len(sigs) + 1)
